@@ -3,8 +3,8 @@ LEVEL = "model_checking"
 TECHNIQUE = "CBMC bounded symbolic execution of evutil_inet_ntop/evutil_inet_pton/evutil_parse_sockaddr_port/evutil_format_sockaddr_port_ vs a strict reference parser (glibc algorithm transcribed), libc scanf/printf/strtol modelled"
 UNITS = ["evutil.c", "strlcpy.c"]
 FUNCTIONS = ["evutil_inet_ntop", "evutil_inet_pton", "evutil_inet_pton_scope", "evutil_parse_sockaddr_port", "evutil_format_sockaddr_port_", "event_strlcpy_"]
-BOUNDS = "ntop: every IPv4 address x len 0..18, IPv6: every IPv4-compatible/-mapped address x len 0..24; hex form: quick = addresses with five consecutive zero words (3 placements) x len 0..41, thorough = one more placement (the full 2^128 hex-form domain did not finish in 1 h and is not claimed; the parse-back oracle is only decided for the IPv4-compatible/-mapped form); pton: every byte string of length <= L (v4 L=9, v6 L=7 quick / 10 and 9 thorough); sockaddr text round trip: every IPv4/IPv6 address and non-zero port"
-OUT = "evutil_parse_sockaddr_port / evutil_format_sockaddr_port_ round trip: NOT decided (every encoding tried -- whole round trip, fixed address with symbolic port digits, path-wise symex -- ran out of 5-8 GB or time: the parser re-scans the text with strchr/memcpy/atoi/inet_pton_scope and cbmc walks the IPv6 and IPv4 interpretations of every symbolic digit); a seeded change of the port bound (65535) is therefore not caught; strings longer than L (e.g. v4 components that overflow 2^32 need >= 10 digits); zone ids with real interface names (if_nametoindex stub returns 0); the platform's own inet_pton/inet_ntop are not encoded: the reference is a transcription of glibc's algorithm, cross-checked natively on 50M strings during development"
+BOUNDS = "ntop: every IPv4 address x len 0..18, IPv6: every IPv4-compatible/-mapped address x len 0..24; hex form: quick = addresses with five consecutive zero words (3 placements) x len 0..41, thorough = one more placement (the full 2^128 hex-form domain did not finish in 1 h and is not claimed; the parse-back oracle is only decided for the IPv4-compatible/-mapped form); pton: every byte string of length <= L (v4 L=9, v6 L=7 quick / 10 and 9 thorough); sockaddr text: port half only -- literal address 1.2.3.4 / [::1], port text = every byte string <= 6 (thorough 7) bytes, and format->parse with every port 1..65535"
+OUT = "evutil_parse_sockaddr_port / evutil_format_sockaddr_port_ round trip over symbolic ADDRESSES: not decided; only the port half is (port_parse_*/port_rt_*: fixed address literal, the two address parsers cut at their call sites by recorders that assert family and text, their syntax being the pton4/pton6 obligations) (every whole-round-trip encoding tried -- whole round trip, fixed address with symbolic port digits, path-wise symex -- ran out of 5-8 GB or time: the parser re-scans the text with strchr/memcpy/atoi/inet_pton_scope and cbmc walks the IPv6 and IPv4 interpretations of every symbolic digit); strings longer than L (e.g. v4 components that overflow 2^32 need >= 10 digits); zone ids with real interface names (if_nametoindex stub returns 0); the platform's own inet_pton/inet_ntop are not encoded: the reference is a transcription of glibc's algorithm, cross-checked natively on 50M strings during development"
 TEXT = "Solver decides over all addresses and buffer lengths that a successful ntop is complete, terminated, inside the buffer and maps back to the same address under a strict parser, and over all short strings that pton accepts exactly the strict grammar with the same address."
 NOTE = "Trusted: cbmc; env/inet_fmt.h models of vsnprintf/sscanf/strtol (native replay links glibc instead, so model errors do not reproduce); ref/inet_ref.h."
 ASSUMPTIONS = ["vsnprintf/sscanf/strtol behave as env/inet_fmt.h (C99/glibc semantics for %d %u %x %s %c)", "if_nametoindex returns 0 (no such interface)"]
@@ -40,6 +40,15 @@ def obligations(tier):
         o = dict(HEXLEN); o["name"] = "ntop6_hex_len_zero%d_%d" % (f, t); o["defines"] = HEXLEN["defines"] + ["VP_ZERO_FROM=%d" % f, "VP_ZERO_TO=%d" % t]
         o["timeout"] = 900; o["desc"] = "words %d..%d zero, the other three words symbolic, every len 0..41: success iff complete text + NUL fit" % (f, t)
         obs.append(o)
+    # port half of the sockaddr text round trip: fixed address literal, address parsers cut by asserting recorders
+    CUT = [["--replace-calls", "evutil_inet_pton:vp_cut_pton"], ["--replace-calls", "evutil_inet_pton_scope:vp_cut_pton_scope"]]
+    PD = 6 if q else 7
+    for fam, dv in (("v4", []), ("v6", ["VP_V6"])):
+        obs.append(dict(name="port_parse_" + fam, harness="C40_port.c", entry="harness_port_parse", defines=dv + ["VP_PD=%d" % PD], instrument=CUT, unwind=PD + 12, unwindset=["vp_evutil_memset.0:30"], timeout=600, mem_gb=6,
+                        desc="text '%s' + every byte string of <= %d bytes without ':' / ']': all-digit values 1..65535 are accepted with exactly that port, family, length and address; 0 and > 65535 rejected; "
+                             "any other accepted text yields a port in 1..65535; failure leaves *outlen alone" % ("1.2.3.4:" if fam == "v4" else "[::1]:", PD)))
+        obs.append(dict(name="port_rt_" + fam, harness="C40_port.c", entry="harness_port_rt", defines=dv, instrument=CUT, unwind=PD + 12, unwindset=["vp_evutil_memset.0:30"], timeout=600, mem_gb=6,
+                        desc="real evutil_format_sockaddr_port_ of %s with ANY port 1..65535, then real evutil_parse_sockaddr_port of that text: accepted, same family/length/address/port" % ("1.2.3.4" if fam == "v4" else "::1")))
     # the same obligation over the full 2^128 hex-form domain (and the parse-back of the full text) did not finish
     # in 3600 s / 3000 s (measured, thorough run): not claimed; HEXLEN/HEXFULL are kept above as the templates only
     return obs
